@@ -27,7 +27,8 @@ from typing import Any, Callable, Iterable
 
 from ..engine.cfg import CFG, own_parts
 from ..engine.normalize import (
-    ANCHOR_NAMES, _bind, _helper_target, _names_stored, _strip_doc, fold_diamonds, inline_helpers,
+    ANCHOR_NAMES, _bind, _helper_target, _names_stored, _replace_node, _strip_doc, _to_expr,
+    fold_diamonds, inline_helpers,
 )
 from ..engine.report import AnalysisError
 from ..engine.resolver import FuncInfo, Program, walk_no_nested
@@ -141,6 +142,8 @@ def callee_tail(call: ast.Call) -> str:
 
 
 def own_calls(n: Any) -> list[ast.Call]:
+    if isinstance(n.ast, (ast.FunctionDef, ast.AsyncFunctionDef, ast.ClassDef)):
+        return []  # a nested definition evaluates nothing of its body
     return [x for part in own_parts(n) for x in walk_no_nested(part) if isinstance(x, ast.Call)]
 
 
@@ -330,6 +333,63 @@ def splice_guarded(prog: Program, fn: FuncInfo, root: ast.AST) -> ast.AST | None
             i = i - 1 + len(pre) + len(new_body)
             spliced_names.add(h.name)
             changed = True
+    # value helpers made of pure bindings, logging, if/else and returns: read as ONE conditional
+    # expression (the logging calls are dropped: they are trusted not to raise and decide nothing)
+    for suite in list(suites(root)):
+        for st in suite:
+            if isinstance(st, (ast.If, ast.While)):
+                own: list[ast.AST] = [st.test]
+            elif isinstance(st, (ast.Assign, ast.AnnAssign, ast.Return, ast.Expr)) and st.value is not None:
+                own = [st.value]
+            else:
+                continue
+            for expr in own:
+                for call in [n for n in ast.walk(expr) if isinstance(n, ast.Call)]:
+                    h = _helper_target(prog, fn, call, nested)
+                    if h is None or h is root or isinstance(h, ast.AsyncFunctionDef) \
+                            or h.name in ANCHOR_NAMES or h.decorator_list and not all(
+                                isinstance(d, ast.Name) and d.id in ("staticmethod", "override")
+                                for d in h.decorator_list):
+                        continue
+                    body = [b for b in copy.deepcopy(_strip_doc(h.body))
+                            if not (isinstance(b, ast.Expr) and isinstance(b.value, ast.Call)
+                                    and is_logging_call(b.value))]
+
+                    def strip_logs(stmts: list[ast.stmt]) -> list[ast.stmt]:
+                        out = []
+                        for b in stmts:
+                            if isinstance(b, ast.Expr) and isinstance(b.value, ast.Call) \
+                                    and is_logging_call(b.value):
+                                continue
+                            if isinstance(b, ast.If):
+                                b.body = strip_logs(b.body) or [ast.copy_location(ast.Pass(), b)]
+                                b.orelse = strip_logs(b.orelse)
+                            out.append(b)
+                        return out
+
+                    body = strip_logs(body)
+                    if len(body) == len(_strip_doc(h.body)) and not any(
+                            isinstance(x, ast.Call) and is_logging_call(x) for b in h.body for x in ast.walk(b)):
+                        continue  # no logging inside: the engine already had its chance
+                    binds = _bind(h, call)
+                    if binds is None or not body or len(body) > 25:
+                        continue
+                    locals_h: set[str] = set()
+                    for b in body:
+                        locals_h |= _names_stored(b)
+                    ren = {n: f"{n}__{h.name.strip('_')}" for n in locals_h if n not in binds}
+                    for b in body:
+                        for nn in ast.walk(b):
+                            if isinstance(nn, ast.Name) and nn.id in ren:
+                                nn.id = ren[nn.id]
+                    sub = _Subst({k: v for k, v in binds.items() if k not in locals_h})
+                    body = [sub.visit(b) for b in body]
+                    ce = _to_expr(body)
+                    if ce is None:
+                        continue
+                    _replace_node(st, call, ce, awaited=False)
+                    spliced_names.add(h.name)
+                    changed = True
     if not changed:
         return None
     ast.fix_missing_locations(root)
@@ -463,7 +523,10 @@ class Flow:
                 stack.append(p)
         return out, from_entry
 
-    def unique_def(self, nid: int, name: str) -> tuple[int, ast.AST] | None:
+    def unique_def(self, nid: int, name: str, any_rhs: bool = False) -> tuple[int, ast.AST] | None:
+        """(node, right-hand side) of the only definition of `name` reaching `nid`.  Unless
+        `any_rhs`, right-hand sides that await or bind names (walrus) are refused: they cannot be
+        substituted into a use."""
         defs, from_entry = self.reaching(nid, name)
         if from_entry or len(defs) != 1:
             return None
@@ -483,8 +546,8 @@ class Flow:
             idx = [k for k, e in enumerate(elts) if isinstance(e, ast.Name) and e.id == name]
             if len(idx) == 1 and not any(isinstance(e, ast.Starred) for e in elts):
                 rhs = _project(a.value, idx[0], len(elts))
-        if rhs is None or any(isinstance(x, (ast.Await, ast.Yield, ast.YieldFrom, ast.NamedExpr))
-                              for x in ast.walk(rhs)):
+        if rhs is None or (not any_rhs and any(
+                isinstance(x, (ast.Await, ast.Yield, ast.YieldFrom, ast.NamedExpr)) for x in ast.walk(rhs))):
             return None
         if any(isinstance(x, ast.Name) and x.id == name for x in ast.walk(rhs)):
             return None
